@@ -736,5 +736,5 @@ func guardSeconds() int {
 			return v
 		}
 	}
-	return 900
+	return 120
 }
